@@ -140,6 +140,14 @@ func c44GenPlan(q *gen.R, tier string, i int, proc bool) c44Plan {
 		gateAt = 1 + q.Intn(nW-4)
 		p.Tags = append(p.Tags, "gate")
 	}
+	inflightAt := -1
+	if q.P(0.6) && nW >= 6 && !proc {
+		inflightAt = 1 + q.Intn(nW-2)
+		if inflightAt == gateAt {
+			inflightAt = gateAt + 1
+		}
+		p.Tags = append(p.Tags, "inflight")
+	}
 	okLeft := maxOK
 	k := 0
 	style := func() (string, int) {
@@ -188,6 +196,22 @@ func c44GenPlan(q *gen.R, tier string, i int, proc bool) c44Plan {
 			if cls[c].dis == w {
 				p.Steps = append(p.Steps, c44Step{Op: "disconnect", C: c, Mode: []string{"close", "abort"}[q.Intn(2)]})
 			}
+		}
+		if w == inflightAt {
+			// A broadcast lands while a client's write of the previous result is in flight:
+			// hold one write loop between its slot read and its write, compile and broadcast
+			// a newer version (its wake-up is queued), release. The client must go on to
+			// read the slot again and deliver the newer version. Atomic-rename saves, so
+			// that the 10 s poll does not re-broadcast by itself.
+			p.Steps = append(p.Steps, c44Step{Op: "quiesce"})
+			p.Steps = append(p.Steps, c44Step{Op: "arm", Point: "wl-before-write", Act: &d2cli.VerifAction{Kind: "gate", Count: 1}})
+			k++
+			p.Steps = append(p.Steps, c44Step{Op: "write", K: k, Kind: "err", Style: "rename", After: "hold-write"})
+			k++
+			p.Steps = append(p.Steps, c44Step{Op: "write", K: k, Kind: "err", Style: "rename", After: "bc-end"})
+			p.Steps = append(p.Steps, c44Step{Op: "release", Point: "wl-before-write"})
+			p.Steps = append(p.Steps, c44Step{Op: "quiesce"})
+			continue
 		}
 		if w == gateAt {
 			// client 0 is connected and never disconnects: somebody reaches the gate.
@@ -378,6 +402,11 @@ func execC44(c run.Case) (res run.Result) {
 				if sc.regSlot == m.slot {
 					trig = "connected-after-last-broadcast"
 				}
+				if sc.swallowed {
+					// decided on state: write loop blocked in its select, resultsCh empty,
+					// yet a wake-up sent after its last slot read was never followed by a read
+					trig = "wakeup-consumed-without-slot-read"
+				}
 				res.Viol("C44.client-missed-final", "C44.client-missed-final:"+trig, fmt.Sprintf("at quiescence client %s (%s) last received %s but the latest result is %s\n%s", cl.hid, sc.id, last, m.slot, h.tailEvents(40)))
 			}
 			// trace vs boundary: what the server logged as written is what arrived
@@ -408,8 +437,12 @@ func execC44(c run.Case) (res run.Result) {
 				h.waitFor("next compile-end", func() bool { return h.m.compileEnd > baseEnd || watchBlocked() })
 			case "bc-end":
 				h.waitFor("next broadcast end", func() bool { return h.m.bcEnd > baseBC || watchBlocked() })
-			case "hold":
-				h.waitFor("a write loop held at the gate and the compile loop parked", func() bool { return h.m.held["wl-before-select"] > 0 && h.m.compileIdle() || watchBlocked() })
+			case "hold", "hold-write":
+				pt := "wl-before-select"
+				if st.After == "hold-write" {
+					pt = "wl-before-write"
+				}
+				h.waitFor("a write loop held at the "+pt+" gate and the compile loop parked", func() bool { return h.m.held[pt] > 0 && h.m.compileIdle() || watchBlocked() })
 			}
 		case "connect":
 			cl, status, err := c44Dial(context.Background(), h.addr(), st.C, h.trace)
